@@ -20,7 +20,10 @@
            value X and an extra effect on fk), [tcr_action_amo], [step_amo] (the added precondition evaluates to the
            at-most-once check of the step), [run_amo], [goals_amo], [tcr_init_amo].
    PART 6  plan level for ONE `sometime-before phi psi` ([tcr_sb_plan]): same skeleton with two regressed formulas
-           ([tcr_action_sb], [step_sb], [run_sb], [goals_sb]). *)
+           ([tcr_action_sb], [step_sb], [run_sb], [goals_sb]).
+   PART 7  steps with SEVERAL extra effects on fk ([step_withL], [fired_meffs], [bs_of]).
+   PART 8  plan level for ONE `sometime-after phi psi` ([tcr_sa_plan]): [tcr_action_sa] (the added effects as a list of
+           (condition, value) pairs), [step_sa] (their fired assignments implement the monitor update), [run_sa], [goals_sa]. *)
 From Coq Require Import List ZArith NArith QArith Qcanon Bool Lia.
 Import ListNotations.
 Require Import UPV.Core.Expr UPV.Core.Eval UPV.Core.Interp UPV.Planning.Problem UPV.Planning.Sem.
@@ -1807,3 +1810,413 @@ Section SbPlan.
     - reflexivity.
   Qed.
 End SbPlan.
+
+(* ================================================================== PART 7: steps with SEVERAL extra effects on fk
+   (groundwork for `sometime-after`: the atom is reset by one added effect and set by another) *)
+Definition xacts (fk : N) (bs : list bool) : list aeff := map (xact fk) bs.
+
+(* the value fk gets from the fired extra assignments [bs] (add-after-delete: true wins), or keeps *)
+Definition newm (old : option value) (bs : list bool) : option value :=
+  match bs with [] => old | _ => Some (VBool (existsb (fun b => b) bs)) end.
+
+Lemma avals_app k l1 l2 : avals k (l1 ++ l2) = avals k l1 ++ avals k l2.
+Proof. unfold avals. rewrite filter_app, map_app. reflexivity. Qed.
+Lemma deltas_app k l1 l2 : deltas k (l1 ++ l2) = deltas k l1 ++ deltas k l2.
+Proof. unfold deltas. rewrite filter_app, map_app. reflexivity. Qed.
+
+Lemma avals_xacts_fk fk bs : avals (fk, []) (xacts fk bs) = map VBool bs.
+Proof.
+  induction bs as [|b bs IH]; [reflexivity|]. cbn [xacts map]. rewrite avals_cons. fold (xacts fk bs).
+  unfold gfl_eqb. cbn [xact ae_key fst snd values_eqb is_assign ae_kind ae_val]. rewrite N.eqb_refl. cbn [andb]. rewrite IH. reflexivity.
+Qed.
+Lemma deltas_xacts fk bs k : deltas k (xacts fk bs) = [].
+Proof.
+  induction bs as [|b bs IH]; [reflexivity|]. cbn [xacts map]. rewrite deltas_cons. fold (xacts fk bs).
+  cbn [xact is_assign ae_kind negb]. rewrite andb_false_r. exact IH.
+Qed.
+Lemma avals_xacts_other fk bs k : fst k <> fk -> avals k (xacts fk bs) = [].
+Proof.
+  intros Hk. induction bs as [|b bs IH]; [reflexivity|]. cbn [xacts map]. rewrite avals_cons. fold (xacts fk bs).
+  unfold gfl_eqb. cbn [xact ae_key fst]. replace (fk =? fst k)%N with false by (symmetry; apply N.eqb_neq; congruence).
+  cbn [andb]. exact IH.
+Qed.
+Lemma existsb_vtrue bs : existsb is_vtrue (map VBool bs) = existsb (fun b => b) bs.
+Proof. induction bs as [|b bs IH]; [reflexivity|]. cbn [map existsb is_vtrue]. rewrite IH. destruct b; reflexivity. Qed.
+
+Section ListStep.
+  Variable fk : N.
+  Variables P P' : problem.
+  Hypothesis Ho : p_objs P' = p_objs P.
+  Hypothesis Hi : p_ifun P' = p_ifun P.
+  Hypothesis Hfl : p_fluents P' = p_fluents P ++ [fk_decl fk].
+  Hypothesis Hv : p_invs P' = p_invs P.
+  Hypothesis Hinvc : forallb (cleanf fk) (p_invs P ++ bound_invs P) = true.
+
+  Lemma spec_fluent_otherL s s' acts bs k : agree_off fk s s' -> fst k <> fk ->
+    spec_fluent P' s' (acts ++ xacts fk bs) k = spec_fluent P s acts k.
+  Proof.
+    intros Hs Hk. unfold spec_fluent.
+    rewrite (isb_other fk P P' Hfl _ Hk), avals_app, deltas_app, (avals_xacts_other fk bs k Hk), deltas_xacts, !app_nil_r,
+      (Hs (fst k) (snd k) Hk). reflexivity.
+  Qed.
+
+  Lemma spec_fluent_fkL s' acts bs : no_fk fk acts ->
+    spec_fluent P' s' (acts ++ xacts fk bs) (fk, []) =
+    match bs with [] => CUnchanged | _ => CVal (VBool (existsb (fun b => b) bs)) end.
+  Proof.
+    intros Hn. unfold spec_fluent. cbn [fst snd]. rewrite (isb_fk fk P P' Hfl), avals_app, deltas_app, avals_xacts_fk, deltas_xacts.
+    unfold avals, deltas. rewrite !(filter_nofk fk acts [] _ Hn). cbn [map app].
+    destruct bs as [|b bs]; [reflexivity|]. cbn [map combine]. rewrite <- existsb_vtrue. reflexivity.
+  Qed.
+
+  Lemma effects_okL s s' acts bs : agree_off fk s s' -> no_fk fk acts ->
+    spec_effects_ok P' s' (acts ++ xacts fk bs) = spec_effects_ok P s acts.
+  Proof.
+    intros Hs Hn. unfold spec_effects_ok. rewrite forallb_app.
+    assert (E2 : forallb (fun a => match spec_fluent P' s' (acts ++ xacts fk bs) (ae_key a) with CFail => false | _ => true end)
+                   (xacts fk bs) = true).
+    { apply forallb_forall. intros x Hx. unfold xacts in Hx. apply in_map_iff in Hx. destruct Hx as [b [<- _]].
+      cbn [xact ae_key]. rewrite (spec_fluent_fkL s' acts bs Hn). destruct bs; reflexivity. }
+    rewrite E2, andb_true_r. apply forallb_eq_in. intros a Ha.
+    rewrite (spec_fluent_otherL s s' acts bs _ Hs (Hn a Ha)). reflexivity.
+  Qed.
+
+  Lemma succL s s' acts bs : agree_off fk s s' -> no_fk fk acts ->
+    agree_off fk (spec_succ P s acts) (spec_succ P' s' (acts ++ xacts fk bs)) /\
+    spec_succ P' s' (acts ++ xacts fk bs) fk [] = newm (s' fk []) bs.
+  Proof.
+    intros Hs Hn. split.
+    - intros f x Hf. unfold spec_succ. rewrite (spec_fluent_otherL s s' acts bs (f, x) Hs Hf), (Hs f x Hf). reflexivity.
+    - unfold spec_succ. rewrite (spec_fluent_fkL s' acts bs Hn). destruct bs; reflexivity.
+  Qed.
+
+  (* the compiled action = the original one (same preconditions) + effects on fk whose evaluation yields the fired
+     assignments [bs] (None = one of them cannot be evaluated) *)
+  Lemma step_withL a a' args s s' (bs : option (list bool)) :
+    agree_off fk s s' -> action_cleanf fk a = true -> a_params a' = a_params a -> a_pre a' = a_pre a ->
+    fired false (mk_interp P' s' (zip_params (a_params a) args)) (a_effs a') =
+      match collect_res (eres_list false (mk_interp P' s' (zip_params (a_params a) args)) (a_effs a)) with
+      | Some acts => match bs with Some l => Some (acts ++ xacts fk l) | None => None end
+      | None => None
+      end ->
+    match spec_step false P s a args, spec_step false P' s' a' args with
+    | Some t, Some t' => agree_off fk t t' /\ exists l, bs = Some l /\ t' fk [] = newm (s' fk []) l
+    | Some t, None => bs = None
+    | None, None => True
+    | None, Some _ => False
+    end.
+  Proof.
+    intros Hs Hc Hp Hpre Hfi. unfold action_cleanf in Hc. apply andb_true_iff in Hc. destruct Hc as [Hc1 Hc2].
+    rewrite !spec_step_eq. rewrite Hp, Hpre, Hfi.
+    pose proof (mk_irel fk P P' Ho Hi s s' (zip_params (a_params a) args) Hs) as HR.
+    rewrite (all_hold_cleanf fk false _ _ (a_pre a) HR Hc1).
+    rewrite (eres_list_cleanf fk false _ _ (a_effs a) HR Hc2).
+    change (fired false (mk_interp P s (zip_params (a_params a) args)) (a_effs a))
+      with (collect_res (eres_list false (mk_interp P s (zip_params (a_params a) args)) (a_effs a))).
+    destruct (all_hold false (mk_interp P s (zip_params (a_params a) args)) (a_pre a)); cbn [negb]; [|exact I].
+    destruct (collect_res (eres_list false (mk_interp P s (zip_params (a_params a) args)) (a_effs a))) as [acts|] eqn:EF; [|exact I].
+    assert (Hn : no_fk fk acts) by (eapply fired_nofk; eassumption).
+    destruct bs as [l|].
+    - rewrite (effects_okL s s' acts l Hs Hn).
+      destruct (negb (spec_effects_ok P s acts)); [exact I|].
+      destruct (succL s s' acts l Hs Hn) as [Ha Hb].
+      rewrite (invariants_cleanf fk P P' Ho Hi Hfl Hv Hinvc _ _ Ha).
+      destruct (invariants_ok false P (spec_succ P s acts)); [|exact I].
+      split; [exact Ha|]. exists l. split; [reflexivity | exact Hb].
+    - destruct (negb (spec_effects_ok P s acts)); [exact I|].
+      destruct (invariants_ok false P (spec_succ P s acts)); [reflexivity | exact I].
+  Qed.
+End ListStep.
+
+(* the added effects `if cond then fk := b`, in order, and what their evaluation yields *)
+Fixpoint bs_of (I' : interp) (cbs : list (expr * bool)) : option (list bool) :=
+  match cbs with
+  | [] => Some []
+  | (cnd, b) :: r =>
+      match fire_of (eval false cnd I'), bs_of I' r with
+      | Some true, Some l => Some (b :: l)
+      | Some false, Some l => Some l
+      | _, _ => None
+      end
+  end.
+
+Lemma eres_meff_cons fk I' cnd b E :
+  eres_list false I' (meff fk b cnd :: E) =
+  (match eval false cnd I' with Some (VBool true) => EAct (xact fk b) | Some _ => ESkip | None => EErr end)
+  :: eres_list false I' E.
+Proof.
+  unfold eres_list. cbn [flat_map]. unfold meff. cbn [e_vars instances map app]. unfold eval_effect.
+  cbn [e_args e_cond e_val e_fl e_kind evals_l]. destruct (eval false cnd I') as [[[|]| |]|]; reflexivity.
+Qed.
+
+Lemma collect_meffs fk I' cbs :
+  collect_res (eres_list false I' (map (fun cb => meff fk (snd cb) (fst cb)) cbs)) =
+  match bs_of I' cbs with Some l => Some (xacts fk l) | None => None end.
+Proof.
+  induction cbs as [|[cnd b] r IH]; [reflexivity|].
+  cbn [map fst snd bs_of]. rewrite eres_meff_cons.
+  destruct (eval false cnd I') as [[[|]| |]|]; cbn [collect_res fire_of]; rewrite ?IH;
+    destruct (bs_of I' r); reflexivity.
+Qed.
+
+Lemma fired_meffs fk I' effs cbs :
+  fired false I' (effs ++ map (fun cb => meff fk (snd cb) (fst cb)) cbs) =
+  match collect_res (eres_list false I' effs) with
+  | Some acts => match bs_of I' cbs with Some l => Some (acts ++ xacts fk l) | None => None end
+  | None => None
+  end.
+Proof.
+  unfold fired. rewrite flat_map_app, collect_res_app2. fold (eres_list false I' effs).
+  fold (eres_list false I' (map (fun cb => meff fk (snd cb) (fst cb)) cbs)). rewrite collect_meffs.
+  destruct (collect_res (eres_list false I' effs)); [|reflexivity]. destruct (bs_of I' cbs); reflexivity.
+Qed.
+
+(* ================================================================== PART 8: plan level, one `sometime-after` constraint *)
+Section SaPlan.
+  Variable smp sub0 : expr -> expr.
+  Variable mon : nat -> N.
+  Variables phi psi : expr.
+  Variable P : problem.
+  Variable G : state -> Prop.
+  Let c := ESometimeAfter phi psi.
+  Let fk := mon 0.
+
+  Hypothesis Hsmp : smp_exact smp.
+  Hypothesis Huniq : unique_ids P.
+  Hypothesis Hgp : gproblem P = true.
+  Hypothesis Hgf : gform phi = true.
+  Hypothesis Hgb : gbool P phi = true.
+  Hypothesis Hgf2 : gform psi = true.
+  Hypothesis Hgb2 : gbool P psi = true.
+  Hypothesis Hfresh : tcr_fresh1 smp fk P phi = true.
+  Hypothesis Hfresh2 : tcr_fresh1 smp fk P psi = true.
+  Hypothesis Gstep : forall s aid a args t, G s -> lookup_action P aid = Some a -> spec_step false P s a args = Some t -> G t.
+  Hypothesis Greg : forall s aid a, G s -> lookup_action P aid = Some a -> reg_ok P s a = true.
+  Hypothesis Gdef : forall s, G s -> gdef s phi = true.
+  Hypothesis Gdef2 : forall s, G s -> gdef s psi = true.
+
+  Let AO1 : always_only P [EAlways phi] = true.
+  Proof. unfold always_only. cbn [forallb]. rewrite Hgf, Hgb. reflexivity. Qed.
+  Let AO2 : always_only P [EAlways psi] = true.
+  Proof. unfold always_only. cbn [forallb]. rewrite Hgf2, Hgb2. reflexivity. Qed.
+  Let GdefA1 : forall s x, G s -> In (EAlways x) [EAlways phi] -> gdef s x = true.
+  Proof. intros s x Gs [H|[]]. inversion H; subst. apply Gdef, Gs. Qed.
+  Let GdefA2 : forall s x, G s -> In (EAlways x) [EAlways psi] -> gdef s x = true.
+  Proof. intros s x Gs [H|[]]. inversion H; subst. apply Gdef2, Gs. Qed.
+
+  Lemma atom_idx_sa : atom_idx [c] c = 0.
+  Proof. unfold atom_idx, c. cbn [atoms_from is_always rev app find fst snd]. rewrite !expr_eqb_refl. reflexivity. Qed.
+
+  Definition c1_sa (a : action) : expr := smp (mkAnd [R smp a phi; mkNot (R smp a psi)]).
+  (* the (condition, value) pairs of the effects on fk the compiler adds, in order *)
+  Definition cbs_sa (a : action) : list (expr * bool) :=
+    let l1 := if expr_eqb phi (R smp a phi) && expr_eqb psi (R smp a psi) then []
+              else if is_false (smp (c1_sa a)) then [] else [(c1_sa a, false)] in
+    if expr_eqb psi (R smp a psi) then l1 else if is_false (smp (R smp a psi)) then l1 else l1 ++ [(R smp a psi, true)].
+  Definition irrel (a : action) : Prop := forall e, In e (a_effs a) -> mentions c e = false.
+
+  Lemma irrel_parts a : irrel a ->
+    (forall e, In e (a_effs a) -> mentions (EAlways phi) e = false) /\
+    (forall e, In e (a_effs a) -> mentions (EAlways psi) e = false).
+  Proof.
+    intros H. split; intros e He; specialize (H e He); unfold mentions in *; cbn [fluent_exps c] in *;
+      rewrite existsb_app in H; apply orb_false_iff in H; tauto.
+  Qed.
+
+  Lemma tcr_action_sa a : exists cbs,
+    tcr_action smp mon [c] a =
+      (if existsb is_false (a_pre a) then None
+       else Some {| a_params := a_params a; a_pre := a_pre a;
+                    a_effs := a_effs a ++ map (fun cb => meff fk (snd cb) (fst cb)) cbs |}) /\
+    ((irrel a /\ cbs = []) \/ cbs = cbs_sa a).
+  Proof.
+    unfold tcr_action.
+    assert (Hall : forall x, In x (flat_map (fun e => filter (fun c0 => mentions c0 e) [c]) (a_effs a)) -> x = c).
+    { intros x Hx. apply in_flat_map in Hx. destruct Hx as [e [_ Hx]]. apply filter_In in Hx. destruct Hx as [[<-|[]] _]. reflexivity. }
+    destruct (dedup_single c _ Hall) as [_ [E0|E1]]; unfold relevant_cs.
+    - assert (Hirr : irrel a).
+      { intros e He. destruct (mentions c e) eqn:Em; [|reflexivity]. exfalso.
+        assert (Hin : In c (dedup_acc [] (flat_map (fun e => filter (fun c0 => mentions c0 e) [c]) (a_effs a)))).
+        { apply dedup_acc_in. right. apply in_flat_map. exists e. split; [exact He|]. cbn [filter]. rewrite Em. left; reflexivity. }
+        rewrite E0 in Hin. destruct Hin. }
+      rewrite E0. cbn [handle_all]. exists []. split; [reflexivity|]. left. split; [exact Hirr | reflexivity].
+    - rewrite E1. cbn [handle_all]. unfold c at 2. cbn [handle]. fold c. rewrite atom_idx_sa. fold fk.
+      exists (cbs_sa a). split; [|right; reflexivity].
+      unfold h_sa, add_cond_eff, cbs_sa. fold (c1_sa a).
+      destruct (expr_eqb phi (R smp a phi)), (expr_eqb psi (R smp a psi)), (is_false (smp (c1_sa a))),
+        (is_false (smp (R smp a psi))); reflexivity.
+  Qed.
+
+  Lemma fresh_parts_sa (x : expr) : tcr_fresh1 smp fk P x = true ->
+    (forall aid a, lookup_action P aid = Some a -> action_cleanf fk a = true /\ cleanf fk (R smp a x) = true) /\
+    forallb (cleanf fk) (p_invs P ++ bound_invs P) = true /\ forallb (cleanf fk) (p_goals P) = true /\ cleanf fk x = true.
+  Proof.
+    intros Hfr. unfold tcr_fresh1 in Hfr. apply andb_true_iff in Hfr. destruct Hfr as [H H4].
+    apply andb_true_iff in H. destruct H as [H H3]. apply andb_true_iff in H. destruct H as [H1 H2].
+    repeat split; try assumption; intros; rewrite forallb_forall in H1; unfold lookup_action in *;
+      match goal with Hl : lookupN _ _ = Some _ |- _ => apply lookupN_In in Hl; specialize (H1 _ Hl); cbn [snd] in H1;
+        apply andb_true_iff in H1; destruct H1; assumption end.
+  Qed.
+
+  Variable P' : problem.
+  Hypothesis Hcomp : tcr_compile smp sub0 mon [c] P = Some P'.
+
+  Lemma P'_eq_sa : p_objs P' = p_objs P /\ p_ifun P' = p_ifun P /\ p_fluents P' = p_fluents P ++ [fk_decl fk] /\
+    p_invs P' = p_invs P /\ p_actions P' = map_actions (tcr_action smp mon [c]) (p_actions P) /\
+    p_goals P' = add_goals [smp (mkAnd (p_goals P ++ [EFluent fk []]))].
+  Proof.
+    unfold tcr_compile in Hcomp. cbn [existsb refused c orb] in Hcomp. inversion Hcomp; subst P'. cbn.
+    unfold landmark_goal, m_atom. cbn [filter is_landmark c map mkAnd]. fold c. rewrite atom_idx_sa.
+    repeat split; reflexivity.
+  Qed.
+
+  Lemma HK_sa x s aid a args t : gform x = true -> gbool P x = true -> (forall s, G s -> gdef s x = true) ->
+    G s -> lookup_action P aid = Some a -> spec_step false P s a args = Some t ->
+    eval false (R smp a x) (mk_interp P s []) = Some (VBool (holds false (mk_interp P t []) x)).
+  Proof.
+    intros Hg Hb Hd Gs Hlk Hst.
+    destruct (regression_step P s a args t x (a_ground P Hgp aid a Hlk) (Greg s aid a Gs Hlk) Hst Hg Hb (Hd s Gs))
+      as (Ev & _ & D).
+    unfold R. rewrite Hsmp, Ev. unfold isB in D. unfold holds.
+    destruct (eval false x (mk_interp P t [])) as [[[|]| |]|]; try discriminate; reflexivity.
+  Qed.
+
+  Lemma step_sa s s' aid a args m : G s -> agree_off fk s s' -> s' fk [] = Some (VBool m) ->
+    (holds false (mk_interp P s []) psi = true -> m = true) ->
+    (holds false (mk_interp P s []) psi = false -> holds false (mk_interp P s []) phi = true -> m = false) ->
+    lookup_action P aid = Some a ->
+    match spec_step false P s a args,
+          match lookup_action P' aid with Some a' => spec_step false P' s' a' args | None => None end with
+    | Some t, Some t' =>
+        agree_off fk t t' /\
+        t' fk [] = Some (VBool (if holds false (mk_interp P t []) psi then true
+                                else if holds false (mk_interp P t []) phi then false else m))
+    | None, None => True
+    | _, _ => False
+    end.
+  Proof.
+    intros Gs Hs Hm I1 I2 Hlk. destruct P'_eq_sa as (Ho & Hi & Hfl & Hv & Ha & _).
+    destruct (fresh_parts_sa phi Hfresh) as (Hfa & Hfi & _ & _). destruct (Hfa aid a Hlk) as [Hca HcR].
+    destruct (fresh_parts_sa psi Hfresh2) as (Hfa2 & _ & _ & _). destruct (Hfa2 aid a Hlk) as [_ HcR2].
+    pose proof (HK_sa phi s aid a args) as HK1. pose proof (HK_sa psi s aid a args) as HK2.
+    assert (Hpa : a_params a = []) by (apply (a_params_nil P Hgp aid a); exact Hlk).
+    pose proof (K2 [EAlways phi] P G Hgp AO1 Greg GdefA1 s) as K2a.
+    pose proof (K2 [EAlways psi] P G Hgp AO2 Greg GdefA2 s) as K2b.
+    unfold lookup_action in *. rewrite Ha, (lookup_map_actions _ _ _ Huniq), Hlk.
+    destruct (tcr_action_sa a) as [cbs [-> Hcbs]].
+    destruct (existsb is_false (a_pre a)) eqn:Efp.
+    { rewrite spec_step_eq. apply existsb_exists in Efp. destruct Efp as [x [Hx Fx]].
+      destruct (all_hold false (mk_interp P s (zip_params (a_params a) args)) (a_pre a)) eqn:Eh; [|exact I].
+      pose proof (all_hold_In false _ _ x Eh Hx) as Hxx. destruct x; try discriminate. destruct b; discriminate. }
+    set (I' := mk_interp P' s' (zip_params (a_params a) args)).
+    pose proof (mk_irel fk P P' Ho Hi s s' (zip_params (a_params a) args) Hs) as HR. fold I' in HR.
+    assert (EI : mk_interp P s (zip_params (a_params a) args) = mk_interp P s []) by (rewrite Hpa; reflexivity).
+    set (a' := {| a_params := a_params a; a_pre := a_pre a;
+                  a_effs := a_effs a ++ map (fun cb => meff fk (snd cb) (fst cb)) cbs |}).
+    pose proof (step_withL fk P P' Ho Hi Hfl Hv Hfi a a' args s s' (bs_of I' cbs) Hs Hca eq_refl eq_refl
+                  (fired_meffs fk I' (a_effs a) cbs)) as Hst.
+    destruct (spec_step false P s a args) as [t|] eqn:Est.
+    - (* the fired assignments implement the update of the monitor *)
+      assert (Hsem : exists l, bs_of I' cbs = Some l /\
+                newm (Some (VBool m)) l = Some (VBool (if holds false (mk_interp P t []) psi then true
+                                                       else if holds false (mk_interp P t []) phi then false else m))).
+      { pose proof (HK1 t Hgf Hgb Gdef Gs Hlk eq_refl) as Hk1. pose proof (HK2 t Hgf2 Hgb2 Gdef2 Gs Hlk eq_refl) as Hk2.
+        set (pt := holds false (mk_interp P t []) phi) in *. set (qt := holds false (mk_interp P t []) psi) in *.
+        set (ps := holds false (mk_interp P s []) phi) in *. set (qs := holds false (mk_interp P s []) psi) in *.
+        destruct Hcbs as [[Hirr ->] | ->].
+        - exists []. split; [reflexivity|]. cbn [newm].
+          assert (Ep : pt = ps) by (apply (K2a t aid a args Gs Hlk Est phi (or_introl eq_refl)); apply (irrel_parts a Hirr)).
+          assert (Eq : qt = qs) by (apply (K2b t aid a args Gs Hlk Est psi (or_introl eq_refl)); apply (irrel_parts a Hirr)).
+          rewrite Ep, Eq. destruct qs, ps, m; try reflexivity; exfalso; intuition congruence.
+        - assert (ER1 : eval false (R smp a phi) I' = Some (VBool pt))
+            by (rewrite (eval_cleanf fk false _ _ _ HR HcR), EI; exact Hk1).
+          assert (ER2 : eval false (R smp a psi) I' = Some (VBool qt))
+            by (rewrite (eval_cleanf fk false _ _ _ HR HcR2), EI; exact Hk2).
+          assert (Ec1 : eval false (c1_sa a) I' = Some (VBool (pt && negb qt))).
+          { unfold c1_sa. rewrite Hsmp.
+            pose proof (B_mkAnd I' _ _ (Forall2_cons _ _ ER1 (Forall2_cons _ _ (B_mkNot _ _ _ ER2) (Forall2_nil _)))) as Bo.
+            unfold B in Bo. rewrite Bo. cbn [forallb]. rewrite andb_true_r. reflexivity. }
+          assert (F1 : expr_eqb phi (R smp a phi) = true -> pt = ps).
+          { intros E. apply expr_eqb_eq in E. rewrite <- E in Hk1. unfold ps, holds. rewrite Hk1. destruct pt; reflexivity. }
+          assert (F2 : expr_eqb psi (R smp a psi) = true -> qt = qs).
+          { intros E. apply expr_eqb_eq in E. rewrite <- E in Hk2. unfold qs, holds. rewrite Hk2. destruct qt; reflexivity. }
+          assert (F3 : is_false (smp (c1_sa a)) = true -> pt && negb qt = false).
+          { intros E. rewrite <- (Hsmp (c1_sa a)) in Ec1. destruct (smp (c1_sa a)); try discriminate. destruct b; try discriminate.
+            cbn [eval] in Ec1. inversion Ec1. reflexivity. }
+          assert (F4 : is_false (smp (R smp a psi)) = true -> qt = false).
+          { intros E. rewrite <- (Hsmp (R smp a psi)) in ER2. destruct (smp (R smp a psi)); try discriminate. destruct b; try discriminate.
+            cbn [eval] in ER2. inversion ER2. reflexivity. }
+          unfold cbs_sa. revert F1 F2 F3 F4.
+          destruct (expr_eqb phi (R smp a phi)), (expr_eqb psi (R smp a psi)), (is_false (smp (c1_sa a))),
+            (is_false (smp (R smp a psi))); intros F1 F2 F3 F4; cbn [andb app bs_of]; rewrite ?Ec1, ?ER2;
+            destruct pt, qt; cbn [andb negb fire_of] in *; (eexists; split; [reflexivity|]); cbn [newm existsb orb];
+            destruct ps, qs, m; try reflexivity; exfalso; intuition congruence. }
+      destruct Hsem as [l [Hl Hnew]]. rewrite Hl in Hst. fold a'.
+      destruct (spec_step false P' s' a' args) as [t'|]; [|discriminate].
+      destruct Hst as [Hag [l' [El Hfk]]]. inversion El; subst l'. split; [exact Hag|]. rewrite Hfk, Hm. exact Hnew.
+    - fold a'. exact Hst.
+  Qed.
+
+  Lemma lookup_none_sa aid : lookup_action P aid = None -> lookup_action P' aid = None.
+  Proof.
+    intros H. destruct P'_eq_sa as (_ & _ & _ & _ & Ha & _). unfold lookup_action in *.
+    rewrite Ha, (lookup_map_actions _ _ _ Huniq), H. reflexivity.
+  Qed.
+
+  Lemma run_sa pi : forall s s' m, G s -> agree_off fk s s' -> s' fk [] = Some (VBool m) ->
+    (holds false (mk_interp P s []) psi = true -> m = true) ->
+    (holds false (mk_interp P s []) psi = false -> holds false (mk_interp P s []) phi = true -> m = false) ->
+    match run P (spec_step false P) s pi, run P' (spec_step false P') s' pi with
+    | Some t, Some t' => agree_off fk t t' /\ t' fk [] = Some (VBool (sa_bit P phi psi m s pi))
+    | None, None => True
+    | _, _ => False
+    end.
+  Proof.
+    induction pi as [|[aid args] r IH]; intros s s' m Gs Hs Hm I1 I2.
+    - cbn [run sa_bit]. split; assumption.
+    - cbn [run sa_bit].
+      destruct (lookup_action P aid) as [a|] eqn:Hlk; [|rewrite (lookup_none_sa aid Hlk); exact I].
+      pose proof (step_sa s s' aid a args m Gs Hs Hm I1 I2 Hlk) as Hst.
+      destruct (spec_step false P s a args) as [t|] eqn:Est.
+      + destruct (lookup_action P' aid) as [a'|]; [|destruct Hst].
+        destruct (spec_step false P' s' a' args) as [t'|]; [|destruct Hst]. destruct Hst as [H1 H2].
+        apply (IH t t' _ (Gstep s aid a args t Gs Hlk Est) H1 H2).
+        * intros ->. reflexivity.
+        * intros -> ->. reflexivity.
+      + destruct (lookup_action P' aid) as [a'|]; [|exact I]. destruct (spec_step false P' s' a' args); [destruct Hst | exact I].
+  Qed.
+
+  Lemma goals_sa t t' : agree_off fk t t' ->
+    goals_hold false P' t' = goals_hold false P t && holds false (mk_interp P' t' []) (EFluent fk []).
+  Proof.
+    intros Ht. destruct P'_eq_sa as (Ho & Hi & _ & _ & _ & Hg). destruct (fresh_parts_sa phi Hfresh) as (_ & _ & Hfg & _).
+    unfold goals_hold. rewrite Hg. unfold add_goals. cbn [filter].
+    assert (E : holds false (mk_interp P' t' []) (smp (mkAnd (p_goals P ++ [EFluent fk []]))) =
+                all_hold false (mk_interp P t []) (p_goals P) && holds false (mk_interp P' t' []) (EFluent fk [])).
+    { unfold holds at 1. rewrite Hsmp. fold (holds false (mk_interp P' t' []) (mkAnd (p_goals P ++ [EFluent fk []]))).
+      rewrite holds_mkAnd. unfold all_hold at 1. rewrite forallb_app. cbn [forallb]. rewrite andb_true_r.
+      fold (all_hold false (mk_interp P' t' []) (p_goals P)).
+      rewrite (all_hold_cleanf fk false _ _ (p_goals P) (mk_irel fk P P' Ho Hi t t' [] Ht) Hfg). reflexivity. }
+    destruct (is_true (smp (mkAnd (p_goals P ++ [EFluent fk []])))) eqn:Et; cbn [negb].
+    - rewrite <- E, (holds_true false _ _ Et). reflexivity.
+    - unfold all_hold at 1. cbn [forallb]. rewrite andb_true_r. exact E.
+  Qed.
+
+  (* PLAN LEVEL, one `sometime-after phi psi` *)
+  Theorem tcr_sa_plan s0 s0' pi : G s0 -> agree_off fk s0 s0' ->
+    s0' fk [] = Some (VBool (holds false (mk_interp P s0 []) psi || negb (holds false (mk_interp P s0 []) phi))) ->
+    valid_plan false P' s0' pi =
+    valid_plan false P s0 pi &&
+    sa_bit P phi psi (holds false (mk_interp P s0 []) psi || negb (holds false (mk_interp P s0 []) phi)) s0 pi.
+  Proof.
+    intros G0 H0 Hm. unfold valid_plan.
+    assert (I1 : holds false (mk_interp P s0 []) psi = true ->
+                 holds false (mk_interp P s0 []) psi || negb (holds false (mk_interp P s0 []) phi) = true) by (intros ->; reflexivity).
+    assert (I2 : holds false (mk_interp P s0 []) psi = false -> holds false (mk_interp P s0 []) phi = true ->
+                 holds false (mk_interp P s0 []) psi || negb (holds false (mk_interp P s0 []) phi) = false) by (intros -> ->; reflexivity).
+    pose proof (run_sa pi s0 s0' _ G0 H0 Hm I1 I2) as HR.
+    destruct (run P (spec_step false P) s0 pi) as [t|], (run P' (spec_step false P') s0' pi) as [t'|]; try destruct HR; try reflexivity.
+    rewrite (goals_sa t t' H). f_equal. unfold holds. rewrite eval_EFluent. cbn [evals mk_interp fl]. rewrite H1.
+    destruct (sa_bit P phi psi _ s0 pi); reflexivity.
+  Qed.
+End SaPlan.
